@@ -127,6 +127,13 @@ def plan(tier, seed):
                 else:
                     n = [int(rng.integers(1, m3 + 1)), int(rng.integers(1, m3 + 1)), int(rng.integers(1, m3 + 1))]
                 cases.append({"part": "rand", "kind": kind, "n": n, "corner": corner, "r": r})
+    # ---- part 'big': a few meshes whose node / dof numbers cross the limits of the narrow integer types (32767, 65535); judged with
+    # sparse references (scatter over an independently numbered grid), no options
+    big = [("stiffness", [181, 180, 0]), ("general", [128, 128, 0]), ("mass", [28, 28, 28])]
+    if not quick:
+        big += [("general", [181, 181, 0]), ("stiffness", [27, 27, 27]), ("poisson", [256, 255, 0]), ("mass", [150, 150, 0]), ("stiffness", [104, 104, 0])]
+    for kind, n in big:
+        cases.append({"part": "big", "kind": kind, "n": n})
     return cases
 
 
@@ -586,6 +593,49 @@ def pick_xkinds(rng, s, k, first=None):
     return out
 
 
+def run_big(pym, s, case, rng, ctx):
+    """assembly on a mesh with tens of thousands of dofs: A = sum_e x_e K_e scattered over the structured grid (sparse reference built
+    from the oracle's own int64 numbering), and the physics of the kind (rigid translations / total mass / constants)"""
+    x = rng.uniform(0.05, 1.0, s.nel)
+    sx = pym.Signal("x", x.copy())
+    opts = {"bc_obj": None, "diag": None, "mtype": "default", "C_obj": None}
+    mod = make_module(pym, s, sx, opts)
+    mod.response()
+    A = mod.sig_out[0].state
+    if not sps.issparse(A) or A.shape != (s.n, s.n):
+        raise Violation("output/not-a-sparse-matrix-of-size-ndof", got=str(type(A)), shape=list(np.shape(A)), want=s.n)
+    ke = np.asarray(s.ke)
+    ne = s.dc.shape[1]
+    rows = np.repeat(s.dc, ne, axis=1).ravel()
+    cols = np.tile(s.dc, (1, ne)).ravel()
+    vals = (x[:, None] * ke.ravel()[None, :]).ravel()
+    Aref = sps.coo_matrix((vals, (rows, cols)), shape=(s.n, s.n)).tocsr()
+    D = (sps.csr_matrix(A) - Aref).tocoo()
+    Sc = sps.coo_matrix((np.abs(vals), (rows, cols)), shape=(s.n, s.n)).tocsr()      # entry-wise scale: sum_e |x_e K_e|
+    ctx.count("big_meshes_judged")
+    ctx.count("entries_compared", int(Aref.nnz))
+    if D.nnz:
+        sc = np.asarray(Sc[D.row, D.col]).ravel()
+        bad = np.abs(D.data) > RTOL * np.maximum(sc, 1e-300)
+        if np.any(bad):
+            k = int(np.argmax(np.abs(D.data) / np.maximum(sc, 1e-300)))
+            raise Violation("scatter/assembled-matrix-is-not-the-scaled-element-sum", grid=list(s.n3), kind=s.kind, ndof=s.ndof, n=s.n,
+                            entry=[int(D.row[k]), int(D.col[k])], got=complex(sps.csr_matrix(A)[D.row[k], D.col[k]]), want=complex(Aref[D.row[k], D.col[k]]),
+                            wrong_entries=int(bad.sum()))
+    if s.kind == "stiffness":
+        for d in range(s.ndof):
+            t = np.zeros(s.n)
+            t[d::s.ndof] = 1.0
+            r = float(np.max(np.abs(A @ t)))
+            if r > 1e-9 * s.kmax:
+                raise Violation("stiffness/rigid-body-translation-not-annihilated", direction=d, residual=r, grid=list(s.n3))
+    if s.kind == "poisson":
+        r = float(np.max(np.abs(A @ np.ones(s.n))))
+        if r > 1e-9 * s.kmax:
+            raise Violation("poisson/constant-field-not-annihilated", residual=r, grid=list(s.n3))
+    return {"key": "big|%s|%s" % (s.kind, "x".join(map(str, s.n3))), "nontrivial": True, "obs": {"n": s.n, "nnz": int(Aref.nnz), "ndof": s.ndof}}
+
+
 # =========================================================================== run_case
 def run_case(case, ctx):
     import pymoto as pym
@@ -595,6 +645,8 @@ def run_case(case, ctx):
     s = make_setup(pym, case, rng)
     worst = [0.0]
     obs = {}
+    if part == "big":
+        return run_big(pym, s, case, rng, ctx)
     if part == "opts":
         bc_kind, const_kind = case["bc"], case["const"]
         diags = DIAG_KINDS if bc_kind != "none" else ["default"]
